@@ -86,6 +86,11 @@ def check(run):
         seqs.append(["graph calc " + line])
         if not late:
             stores.append(["graph store " + line])
+            # containers whose trailing metadata message needs a two- or three-byte length prefix (long signal lists), read back
+            # through Cursor AND through readers that hand out 1, 2, 3, 7, 64, 129 bytes per read() call (harness `store`)
+            if k % 12 == 0:
+                many = [rng.randrange(total) for _ in range(rng.choice([70, 130, 200, 1000] + ([9000] if k % 120 == 0 else [])))]
+                stores.append([f"graph store {';'.join(nodes)} {','.join(hex(o) for o in many)} {','.join(info) or '-'} -"])
         # a twin graph of the SAME encoded length (one operator exchanged), evaluated between two evaluations of the original from a
         # serialization buffer the harness reuses: the result must not depend on what was evaluated before (purity across calls)
         duo = [j for j, t in enumerate(nodes) if t.startswith("D:")]
